@@ -367,10 +367,16 @@ class Sym(object):
 
     @staticmethod
     def real_var(name, **meta):
+        pin = getattr(_CTX[0], 'pin', None)
+        if pin is not None and name in pin:
+            return Sym(_q(pin[name]))          # exact re-run of a concrete probe: the input is this rational
         return Sym(Q.var(name, **meta))
 
     @staticmethod
     def complex_var(name, **meta):
+        pin = getattr(_CTX[0], 'pin', None)
+        if pin is not None and (name + "_re") in pin and (name + "_im") in pin:
+            return Sym(_q(pin[name + "_re"]), _q(pin[name + "_im"]), True)
         return Sym(Q.var(name + "_re", **meta), Q.var(name + "_im", **meta), True)
 
     def is_const(self):
